@@ -284,8 +284,10 @@ struct EpHarness : Harness {
         if (n >= 65536 && !invalid && op.find("_huge") == std::string::npos) COUNT("probe.count_of_64k_octets_or_more_really_moved");
         R.src.begin_op(o.get("ss")); R.snk.begin_op(o.get("ks"));
         EpIntruder intr{&c, 0};
-        R.snk.intruder = nullptr;
-        if (o.has("intrude")) { intr.arg = o.get("intrude").ati(1, 0) & 0xfffff; R.snk.intrude_at = o.get("intrude").ati(0, 0) & 15; R.snk.intruder = second_plumbing_job; R.snk.intruder_arg = &intr; }
+        R.snk.intruder = nullptr; R.src.intruder = nullptr;
+        if (o.has("intrude")) { intr.arg = o.get("intrude").ati(1, 0) & 0xfffff;
+            if (intr.arg & 0x80000) { R.src.intrude_at = o.get("intrude").ati(0, 0) & 15; R.src.intruder = second_plumbing_job; R.src.intruder_arg = &intr; }   // the second task runs while this one waits in its source driver
+            else { R.snk.intrude_at = o.get("intrude").ati(0, 0) & 15; R.snk.intruder = second_plumbing_job; R.snk.intruder_arg = &intr; } }
         const size_t sp0 = R.src.pos;
         const size_t remaining = R.src.data.size() - sp0;
         // an auxiliary-buffer operation may move up to its region per round, whatever n says
